@@ -59,4 +59,140 @@ theorem mpq_mul_sqr_alloc_safe (s : St) (pn pd an ad g1 g2 t1 t2 : Nat) (hs : s.
 example : (mpq_mul exq 2 3 2 3 2 3 6 7 8 9).ok = true ∧ (mpq_mul exq 2 3 2 3 2 3 6 7 8 9).ALLOC 2 = 4 ∧
     (mpq_mul exq 2 3 2 3 2 3 6 7 8 9).ALLOC 3 = 6 ∧ valOf (mpq_mul exq 2 3 2 3 2 3 6 7 8 9) 2 = ((B : Int) ^ 2 - 2) ^ 2 := by decide
 
+/-- the scratch ids standing for the local mpz_t's of a function are pairwise different and none of them is an operand field -/
+def Fresh (scr ops : List Nat) : Prop := scr.Nodup ∧ ∀ x ∈ scr, x ∉ ops
+
+/-- mpq_mul, the general arm (mul.c:41-67; op1, op2 different variables), prod = (pn, pd) being op1, op2 or a third variable —
+    in fact for EVERY assignment of ids in which the fields of prod differ and NUM (prod) is not a denominator field:
+    the four mpz_init'ed locals are written by mpz_gcd / mpz_divexact_gcd (object-level callees: the sizes they request have room
+    for their results — `mpz_divexact_gcd_wrote`), NUM (prod) is written by mpz_mul at :57 BEFORE DEN (op2), DEN (op1) are read
+    again at :59-60 ("we dare to overwrite the numerator of PROD when we are finished with the numerators"), DEN (prod) last.
+    No bad access, both fields of prod well formed, no variable other than prod and the locals changed, and the values are those
+    of the C12 value model `Mpq.mul`: (n1/g1)(n2/g2) over (d2/g1)(d1/g2) with g1 = gcd (n1, d2), g2 = gcd (n2, d1).
+    Hypotheses: operands well formed with positive denominators (the documented precondition "canonical form"; positivity is
+    what makes the gcds non-zero for mpz_divexact_gcd's `ASSERT (mpz_sgn (d) > 0)`). -/
+theorem mpq_mul_alloc_safe (s : St) (pn pd an ad bn bd g1 g2 t1 t2 : Nat) (hs : s.ok = true)
+    (hop : ∀ x ∈ [pn, pd, an, ad, bn, bd], OWF (s.h x))
+    (hne : ¬ (an = bn ∧ ad = bd)) (hf : pn ≠ pd) (hna : pn ≠ ad) (hnb : pn ≠ bd)
+    (hfr : Fresh [g1, g2, t1, t2] [pn, pd, an, ad, bn, bd])
+    (hda : 0 < valOf s ad) (hdb : 0 < valOf s bd) :
+    let s' := mpq_mul s pn pd an ad bn bd g1 g2 t1 t2
+    let G1 := Mpq.zgcd (valOf s an) (valOf s bd)
+    let G2 := Mpq.zgcd (valOf s bn) (valOf s ad)
+    s'.ok = true ∧ OWF (s'.h pn) ∧ OWF (s'.h pd) ∧
+    (∀ x, x ≠ pn → x ≠ pd → x ∉ [g1, g2, t1, t2] → s'.h x = s.h x) ∧
+    valOf s' pn = Mpq.divexact (valOf s an) G1 * Mpq.divexact (valOf s bn) G2 ∧
+    valOf s' pd = Mpq.divexact (valOf s bd) G1 * Mpq.divexact (valOf s ad) G2 := by
+  intro s' G1 G2
+  obtain ⟨hN, hS⟩ := hfr
+  simp only [List.nodup_cons, List.mem_cons, List.not_mem_nil, or_false, not_or, List.nodup_nil, and_true, not_false_eq_true] at hN
+  obtain ⟨⟨n12, n13, n14⟩, ⟨n23, n24⟩, n34⟩ := hN
+  have S1 := hS g1 (by simp); have S2 := hS g2 (by simp); have S3 := hS t1 (by simp); have S4 := hS t2 (by simp)
+  simp only [List.mem_cons, List.not_mem_nil, or_false, not_or] at S1 S2 S3 S4
+  obtain ⟨a1, a2, a3, a4, a5, a6⟩ := S1
+  obtain ⟨b1, b2, b3, b4, b5, b6⟩ := S2
+  obtain ⟨c1, c2, c3, c4, c5, c6⟩ := S3
+  obtain ⟨d1, d2, d3, d4, d5, d6⟩ := S4
+  have Opn := hop pn (by simp); have Opd := hop pd (by simp); have Oan := hop an (by simp)
+  have Oad := hop ad (by simp); have Obn := hop bn (by simp); have Obd := hop bd (by simp)
+  -- the four mpz_init's
+  set s0 := mpzInit (mpzInit (mpzInit (mpzInit s g1) g2) t1) t2 with hs0
+  have ok0 : s0.ok = true := by simpa [s0] using hs
+  have I : ∀ x, OWF (s.h x) → OWF (s0.h x) := fun x h => mpzInit_owf _ _ _ (mpzInit_owf _ _ _ (mpzInit_owf _ _ _ (mpzInit_owf _ _ _ h)))
+  have F0 : ∀ x, x ≠ g1 → x ≠ g2 → x ≠ t1 → x ≠ t2 → s0.h x = s.h x := by
+    intro x h1 h2 h3 h4
+    rw [hs0, mpzInit_other _ _ h4, mpzInit_other _ _ h3, mpzInit_other _ _ h2, mpzInit_other _ _ h1]
+  have Og1 : OWF (s0.h g1) := by
+    rw [hs0, mpzInit_other _ _ n14, mpzInit_other _ _ n13, mpzInit_other _ _ n12]; exact mpzInit_owf_self _ _
+  have Og2 : OWF (s0.h g2) := by
+    rw [hs0, mpzInit_other _ _ n24, mpzInit_other _ _ n23]; exact mpzInit_owf_self _ _
+  have Ot1 : OWF (s0.h t1) := by rw [hs0, mpzInit_other _ _ n34]; exact mpzInit_owf_self _ _
+  have Ot2 : OWF (s0.h t2) := mpzInit_owf_self _ _
+  have V0 : ∀ x, x ≠ g1 → x ≠ g2 → x ≠ t1 → x ≠ t2 → valOf s0 x = valOf s x := by
+    intro x h1 h2 h3 h4; unfold valOf; rw [F0 x h1 h2 h3 h4]
+  have van := V0 an (Ne.symm a3) (Ne.symm b3) (Ne.symm c3) (Ne.symm d3)
+  have vad := V0 ad (Ne.symm a4) (Ne.symm b4) (Ne.symm c4) (Ne.symm d4)
+  have vbn := V0 bn (Ne.symm a5) (Ne.symm b5) (Ne.symm c5) (Ne.symm d5)
+  have vbd := V0 bd (Ne.symm a6) (Ne.symm b6) (Ne.symm c6) (Ne.symm d6)
+  -- :51-52 the two gcds
+  have W1 := mpz_gcd_wrote s0 g1 an bd ok0 Og1
+  have W2 := mpz_gcd_wrote _ g2 bn ad W1.ok (W1.owf_of g2 Og2)
+  have hG1pos : 0 < G1 := by
+    show (0 : Int) < ((Int.gcd (valOf s an) (valOf s bd) : Nat) : Int)
+    exact_mod_cast Int.gcd_pos_of_ne_zero_right _ (by omega)
+  have hG2pos : 0 < G2 := by
+    show (0 : Int) < ((Int.gcd (valOf s bn) (valOf s ad) : Nat) : Int)
+    exact_mod_cast Int.gcd_pos_of_ne_zero_right _ (by omega)
+  have e1 : valOf (mpz_gcd s0 g1 an bd) g1 = G1 := by rw [W1.val, van, vbd]; rfl
+  have e2 : valOf (mpz_gcd (mpz_gcd s0 g1 an bd) g2 bn ad) g2 = G2 := by
+    rw [W2.val, W1.val_other bn (Ne.symm a5), W1.val_other ad (Ne.symm a4), vbn, vad]; rfl
+  set s2 := mpz_gcd (mpz_gcd s0 g1 an bd) g2 bn ad with hs2
+  have e1' : valOf s2 g1 = G1 := by rw [W2.val_other g1 n12, e1]
+  have K2 : ∀ x, OWF (s0.h x) → OWF (s2.h x) := fun x h => W2.owf_of x (W1.owf_of x h)
+  have V2 : ∀ x, x ≠ g1 → x ≠ g2 → valOf s2 x = valOf s0 x := fun x h1 h2 => by
+    rw [W2.val_other x h2, W1.val_other x h1]
+  -- :54-55
+  have dv1 : valOf s2 g1 ∣ valOf s2 an := by
+    rw [e1', V2 an (Ne.symm a3) (Ne.symm b3), van]; exact Int.gcd_dvd_left _ _
+  have W3 := mpz_divexact_gcd_wrote s2 t1 an g1 W2.ok (K2 t1 Ot1) (K2 an (I an Oan)) (K2 g1 Og1) (by rw [e1']; exact hG1pos) dv1
+  set s3 := mpz_divexact_gcd s2 t1 an g1 with hs3
+  have e2' : valOf s3 g2 = G2 := by rw [W3.val_other g2 n23, e2]
+  have dv2 : valOf s3 g2 ∣ valOf s3 bn := by
+    rw [e2', W3.val_other bn (Ne.symm c5), V2 bn (Ne.symm a5) (Ne.symm b5), vbn]; exact Int.gcd_dvd_left _ _
+  have K3 : ∀ x, OWF (s0.h x) → OWF (s3.h x) := fun x h => W3.owf_of x (K2 x h)
+  have W4 := mpz_divexact_gcd_wrote s3 t2 bn g2 W3.ok (K3 t2 Ot2) (K3 bn (I bn Obn)) (K3 g2 Og2) (by rw [e2']; exact hG2pos) dv2
+  set s4 := mpz_divexact_gcd s3 t2 bn g2 with hs4
+  have K4 : ∀ x, OWF (s0.h x) → OWF (s4.h x) := fun x h => W4.owf_of x (K3 x h)
+  -- :57 NUM (prod)
+  have W5 := mpz_mul_wrote s4 pn t1 t2 W4.ok (K4 pn (I pn Opn)) (K4 t1 Ot1) (K4 t2 Ot2)
+  set s5 := mpz_mul s4 pn t1 t2 with hs5
+  have K5 : ∀ x, OWF (s0.h x) → OWF (s5.h x) := fun x h => W5.owf_of x (K4 x h)
+  have vnum : valOf s5 pn = Mpq.divexact (valOf s an) G1 * Mpq.divexact (valOf s bn) G2 := by
+    rw [W5.val, W4.val, W4.val_other t1 n34, W3.val, e2', e1', W3.val_other bn (Ne.symm c5),
+      V2 bn (Ne.symm a5) (Ne.symm b5), V2 an (Ne.symm a3) (Ne.symm b3), van, vbn]; rfl
+  -- values of the denominators and gcds seen after the store to NUM (prod)
+  have V5 : ∀ x, x ≠ g1 → x ≠ g2 → x ≠ t1 → x ≠ t2 → x ≠ pn → valOf s5 x = valOf s0 x := fun x h1 h2 h3 h4 h5 => by
+    rw [W5.val_other x h5, W4.val_other x h4, W3.val_other x h3, V2 x h1 h2]
+  have g1s5 : valOf s5 g1 = G1 := by rw [W5.val_other g1 a1, W4.val_other g1 n14, W3.val_other g1 n13, e1']
+  have g2s5 : valOf s5 g2 = G2 := by rw [W5.val_other g2 b1, W4.val_other g2 n24, e2']
+  have bds5 : valOf s5 bd = valOf s bd := by
+    rw [V5 bd (Ne.symm a6) (Ne.symm b6) (Ne.symm c6) (Ne.symm d6) (Ne.symm hnb), vbd]
+  have ads5 : valOf s5 ad = valOf s ad := by
+    rw [V5 ad (Ne.symm a4) (Ne.symm b4) (Ne.symm c4) (Ne.symm d4) (Ne.symm hna), vad]
+  -- :59-60
+  have W6 := mpz_divexact_gcd_wrote s5 t1 bd g1 W5.ok (K5 t1 Ot1) (K5 bd (I bd Obd)) (K5 g1 Og1) (by rw [g1s5]; exact hG1pos)
+    (by rw [g1s5, bds5]; exact Int.gcd_dvd_right _ _)
+  set s6 := mpz_divexact_gcd s5 t1 bd g1 with hs6
+  have K6 : ∀ x, OWF (s0.h x) → OWF (s6.h x) := fun x h => W6.owf_of x (K5 x h)
+  have W7 := mpz_divexact_gcd_wrote s6 t2 ad g2 W6.ok (K6 t2 Ot2) (K6 ad (I ad Oad)) (K6 g2 Og2)
+    (by rw [W6.val_other g2 n23, g2s5]; exact hG2pos)
+    (by rw [W6.val_other g2 n23, g2s5, W6.val_other ad (Ne.symm c4), ads5]; exact Int.gcd_dvd_right _ _)
+  set s7 := mpz_divexact_gcd s6 t2 ad g2 with hs7
+  have K7 : ∀ x, OWF (s0.h x) → OWF (s7.h x) := fun x h => W7.owf_of x (K6 x h)
+  -- :62 DEN (prod)
+  have W8 := mpz_mul_wrote s7 pd t1 t2 W7.ok (K7 pd (I pd Opd)) (K7 t1 Ot1) (K7 t2 Ot2)
+  have e : s' = mpz_mul s7 pd t1 t2 := by
+    simp only [s', mpq_mul]
+    have hc : (an == bn && ad == bd) = false := by
+      by_cases h : an = bn
+      · have : ad ≠ bd := fun h' => hne ⟨h, h'⟩
+        simp [this]
+      · simp [h]
+    rw [hc]; rfl
+  rw [e]
+  refine ⟨W8.ok, W8.owf_of pn (W7.owf_of pn (W6.owf_of pn W5.owf)), W8.owf, ?_, ?_, ?_⟩
+  · intro x h1 h2 h3
+    simp only [List.mem_cons, List.not_mem_nil, or_false, not_or] at h3
+    obtain ⟨x1, x2, x3, x4⟩ := h3
+    rw [W8.frame x h2, W7.frame x x4, W6.frame x x3, W5.frame x h1, W4.frame x x4, W3.frame x x3, W2.frame x x2, W1.frame x x1,
+      F0 x x1 x2 x3 x4]
+  · rw [W8.val_other pn hf, W7.val_other pn (Ne.symm d1), W6.val_other pn (Ne.symm c1), vnum]
+  · rw [W8.val, W7.val, W7.val_other t1 n34, W6.val, W6.val_other g2 n23, g2s5, g1s5, W6.val_other ad (Ne.symm c4), ads5, bds5]; rfl
+
+-- 6/35 · (-(14·B)/9): cross gcds 3 and 7, prod is op2 (in place, one-limb blocks): -(4·B)/15
+example : (mpq_mul exm 4 5 2 3 4 5 6 7 8 9).ok = true ∧ valOf (mpq_mul exm 4 5 2 3 4 5 6 7 8 9) 4 = -(4 * (B : Int)) ∧
+    valOf (mpq_mul exm 4 5 2 3 4 5 6 7 8 9) 5 = 15 := by decide +kernel
+-- the same into op1 and into a third variable
+example : valOf (mpq_mul exm 2 3 2 3 4 5 6 7 8 9) 2 = -(4 * (B : Int)) ∧ valOf (mpq_mul exm 0 1 2 3 4 5 6 7 8 9) 1 = 15 := by decide +kernel
+
 end Mpir.AllocSafe6
